@@ -109,6 +109,23 @@ def run_scenario(name: str, seed: int, steps: int, blue: str = "random", tweak_i
     for n, a in agents.items():
         hist = a.history
         acts = [(h.timestep, h.action, h.parameters, h.response.status) for h in hist]
+        # `SimOk` (Props/C19Wf.lean): what the never-raises theorem assumes of the simulator, checked on every real response
+        sim = stats.setdefault("simok", {"do-nothing": 0, "login-success": 0, "login-failure": 0, "login-failure-without-reason": 0})
+        for h in hist:
+            if h.action == "do-nothing":
+                sim["do-nothing"] += 1
+                if h.response.status != "success":
+                    viol.append({"agent": n, "what": "simulator-answered-do-nothing-with-" + str(h.response.status), "detail": [h.timestep]})
+                    break
+            elif h.action == "node-session-remote-login":
+                if h.response.status == "success":
+                    sim["login-success"] += 1
+                    if not {"ip_address", "username"} <= set(h.response.data or {}):
+                        viol.append({"agent": n, "what": "successful-login-response-without-login-data", "detail": [h.timestep, sorted(h.response.data or {})]})
+                        break
+                else:
+                    sim["login-failure"] += 1
+                    sim["login-failure-without-reason"] += int("reason" not in (h.response.data or {}))
         non_idle = [x for x in acts if x[1] != "do-nothing"]
         if isinstance(a, PeriodicAgent):          # includes DataManipulationAgent
             s = a.config.agent_settings
@@ -271,6 +288,8 @@ def run_all(ctx):
             ctx.count("scenario:environment-raised-mid-episode (outside C19)")
             ctx.notes.append(f"{name}/{tweak or 'shipped'}/blue={blue}/seed={seed}: env.step raised after {res['stats']['steps']} steps: "
                              f"{res['stats']['env_error']} — oracles evaluated on the history up to that step")
+        for k, v in res["stats"].get("simok", {}).items():
+            ctx.count(f"scenario:SimOk:{k}", v)
         for n, st in res["stats"]["agents"].items():
             ctx.count(f"scenario:agent-kind:{st['kind']}")
             if "failed" in st:
